@@ -1034,7 +1034,18 @@ func callBuiltin(caller *frame, callpos token.Pos, fn *ssa.Builtin, args []value
 				src = append(src, a1[i])
 			}
 		case sym:
-			ex.abandon("append([]byte, symbolic string...)")
+			// a semi-symbolic string: one byte per character
+			cs, ok := ex.semiOf(a1)
+			if !ok {
+				ex.abandon("append([]byte, symbolic string...)")
+			}
+			for _, c := range cs {
+				if c.t == nil {
+					src = append(src, c.c)
+				} else {
+					src = append(src, sym{types.Uint8, ex.tb.ToCode(c.t)})
+				}
+			}
 		case []value:
 			src = make([]value, len(a1))
 			for i := range a1 {
